@@ -392,6 +392,8 @@ func genC01(c *Ctx) {
 		}
 	}
 
+	probeRingQP(c)
+
 	// (3) multi-modulus Ring: automorphisms and monomials against the abstract layer (RPoly)
 	for _, N := range []int{16, 32} {
 		qs := primesFor(uint64(2*N), []int{20, 45, 60})
